@@ -2,6 +2,7 @@
 
 import logging
 import os
+import threading
 
 from mpf.file_interfaces.pickle_interface import PickleInterface
 from mpf.file_interfaces.yaml_interface import YamlInterface
@@ -21,6 +22,7 @@ class FileManager:
     file_interfaces = dict()    # type: Dict[str, YamlInterface]
     initialized = False
     is_busy = False
+    _save_lock = threading.Lock()
 
     @classmethod
     def init(cls):
@@ -115,6 +117,12 @@ class FileManager:
         # on a YamlInterface will throw. Set a flag to prevent multiple
         # data writes concurrently.
         # TODO: Create FileManager instances for each DataManager instance.
+        # is_busy alone cannot serialise the writer threads (check-then-act). the yaml dumper is shared and not reentrant.
+        with FileManager._save_lock:
+            FileManager._save(filename, data)
+
+    @staticmethod
+    def _save(filename, data):
         FileManager.is_busy = True
         try:
             ext = os.path.splitext(filename)[1]
